@@ -71,7 +71,7 @@ func c07ExtSpecOf(seed int64) c07ExtSpec {
 var c07ExtItemCol = func(name string) clause.Column { return clause.Column{Table: "c07_items", Name: name} }
 
 var c07ExtSelectCols = []string{"id", "user_name", "score", "zip_code", "note", "cat_id", "c07_items.score + 1 AS x1", "c07_items.score + 2 AS x2"}
-var c07ExtOmitCols = []string{"note", "zip_code", "score", "cat_id", "user_name"}
+var c07ExtOmitCols = []string{"note", "zip_code", "score"} // the goroutines omit cat_id / user_name
 var c07ExtGroupCols = []string{"c07_items.id", "c07_items.score", "c07_items.zip_code", "c07_items.user_name", "c07_items.note", "c07_items.cat_id", "c07_items.score", "c07_items.note"}
 
 // c07ExtChunks: how the n entries are distributed over calls
@@ -193,11 +193,15 @@ func c07ExtBuild(shared *gorm.DB, sp c07ExtSpec) *gorm.DB {
 			for _, c := range c07ExtSelectCols[1:n] {
 				args = append(args, c)
 			}
-			switch sp.Split {
-			case 1:
+			switch {
+			case sp.Split == 1:
 				tx = tx.Select(append([]string{}, c07ExtSelectCols[:n]...))
-			case 2:
+			case sp.Split == 2:
 				tx = tx.Select([]string{c07ExtSelectCols[0]}, args...)
+			case n%2 == 0: // one call per column: the last call wins (a Select that accumulated would grow the list call by call)
+				for _, c := range c07ExtSelectCols[:n] {
+					tx = tx.Select("id", c)
+				}
 			default:
 				tx = tx.Select(c07ExtSelectCols[0], args...)
 			}
@@ -209,10 +213,15 @@ func c07ExtBuild(shared *gorm.DB, sp c07ExtSpec) *gorm.DB {
 		if n > 0 {
 			cols := make([]string, 0, n+3)
 			cols = append(cols, c07ExtOmitCols[:n]...)
-			if sp.Split == 1 {
+			switch sp.Split {
+			case 1:
 				tx = tx.Omit(strings.Join(cols, ","))
-			} else {
+			case 2:
 				tx = tx.Omit(cols...)
+			default: // one call per column: the last call wins (an Omit that accumulated would grow the list call by call)
+				for _, c := range cols {
+					tx = tx.Omit(c)
+				}
 			}
 		}
 	case "preload":
@@ -308,9 +317,9 @@ func c07ExtAdd(h *gorm.DB, sp c07ExtSpec, g int, lo uint, row uint, j int) *gorm
 			d = d.Select("id", []string{"zip_code", "score"}[g%2], "note")
 		}
 	case "omit":
-		d = d.Omit([]string{"note", "zip_code"}[g%2])
+		d = d.Omit([]string{"cat_id", "user_name"}[g%2])
 		if j > 1 {
-			d = d.Omit("score", []string{"user_name", "cat_id"}[g%2])
+			d = d.Omit("score", []string{"cat_id", "user_name"}[g%2])
 		}
 	case "preload":
 		d = d.Preload("Tags", "label = ?", []string{"a", "b"}[g%2])
